@@ -186,8 +186,9 @@ def OpOk (_s : St) : Op → Prop
   | .recv _ pkts => ∀ p ∈ pkts, HdrOk p
   | .getTimer => True
   | .handleTimer _ => True
-  -- C12/C13/C16: the frame writers return or raise QuicPacketBuilderStop (which is caught)
-  | .send w => WriterOk w.closeFrame ∧ WriterOk w.handshake ∧ WriterOk w.application
+  -- `QuicPacketBuilder.start_packet` (header + Initial token vs. buffer: AQ.Props.C05Send, C13) and the
+  -- frame writers (C12/C13/C16) return or raise QuicPacketBuilderStop (which is caught)
+  | .send w => WriterOk w.startPacket ∧ WriterOk w.closeFrame ∧ WriterOk w.handshake ∧ WriterOk w.application
   | .nextEvent => True
   | .close _ => True
 
@@ -214,7 +215,7 @@ theorem step_total (s : St) (op : Op) (hi : ConnInv s) (hop : OpOk s op) :
     | closed c => simp [step, hr]
   | getTimer => exact ⟨s, by simp [step, getTimer, Except.map], hi⟩
   | handleTimer due => exact handleTimer_ok s due hi
-  | send w => exact datagramsToSend_ok s w hi hop.1 hop.2.1 hop.2.2
+  | send w => exact datagramsToSend_ok s w hi hop.1 hop.2.1 hop.2.2.1 hop.2.2.2
   | nextEvent => exact nextEvent_ok s hi
   | close code => exact ⟨_, rfl, inv_close s code hi⟩
 
